@@ -9,7 +9,7 @@ TRUSTED_COMMON = [
 
 class Prop:
     def __init__(self, pid, streams, nontrivial, rule, quick_n, thorough_n, trusted=(), assumptions=(), partial=None,
-                 module=None, pre=(), thorough_lines=None):
+                 module=None, pre=(), thorough_lines=None, extra_modules=()):
         self.id = pid
         self.streams = streams          # list of (name, generator, weight)
         self.nontrivial = nontrivial    # function(case) -> bool
@@ -20,6 +20,7 @@ class Prop:
         self.partial = partial
         self.module = module or ("Mltwist.Props." + pid)
         self.pre = list(pre)
+        self.extra_modules = list(extra_modules)   # composition theorems built and audited with this property
         self.thorough_lines = thorough_lines
 
 
@@ -44,3 +45,9 @@ import importlib, pkgutil, os as _os
 for _m in sorted(pkgutil.iter_modules([_os.path.dirname(__file__)]), key=lambda m: m.name):
     if _m.name.startswith("props_"):
         importlib.import_module("vcheck." + _m.name)
+
+# Props/Compose.lean: the cross-slice composition (the assumptions one slice makes about another, discharged
+# with the other slice's theorems).  It is rebuilt and audited together with the properties it connects.
+for _pid in ("C03", "C07", "C21", "C22", "C23", "C26", "C31"):
+    if _pid in PROPS:
+        PROPS[_pid].extra_modules.append("Mltwist.Props.Compose")
